@@ -50,6 +50,12 @@ func (m *Master) RacePass(what string) {
 	if strings.Contains(s, "RACEPASS-DONE") {
 		m.Tot.Extra["racepass_completed"] = 1
 	}
+	if n := strings.Count(s, "RACEPASS-ERROR-LOST"); n > 0 {
+		// an observed run in which a failure was not reported to the caller: a real execution, not a guess
+		m.Tot.Extra["racepass_error_lost"] = int64(n)
+		payload := []byte(fmt.Sprintf(`{"kind":"racepass","what":%q}`, what))
+		m.AddViolation(Violation{Sig: m.Prop.ID + "/free-running/error-lost", Desc: fmt.Sprintf("free-running pass %q: in %d runs a failure of the producer was not visible to the consumer", what, n), Replay: payload, Precise: true})
+	}
 	seen := map[string]bool{}
 	for _, r := range reports[1:] {
 		fr := raceFrame.FindAllStringSubmatch(r, -1)
